@@ -19,7 +19,11 @@ fn main() {
     if Path::new(&hooks).exists() {
         out += &format!("#[cfg(feature = \"verif\")] #[path = \"{hooks}\"] pub mod verif_hooks;\n");
         println!("cargo:rustc-cfg=have_hooks");
+        if fs::read_to_string(&hooks).map(|t| t.contains("fn memo_log_start")).unwrap_or(false) {
+            println!("cargo:rustc-cfg=have_memo_log");
+        }
     }
+    println!("cargo:rustc-check-cfg=cfg(have_memo_log)");
     println!("cargo:rustc-check-cfg=cfg(have_hooks)");
     fs::write(Path::new(&env::var("OUT_DIR").unwrap()).join("gram_mods.rs"), out).unwrap();
 }
